@@ -142,6 +142,40 @@ def run(cx):
     # Connect is emitted once per connection: only together with the promotion, i.e. under the nonce test
     from props.C07 import inst_promotion_guard
     inst_promotion_guard(cx, "C08.h")
+    inst_receive_address(cx, "C08.i")
+
+
+def inst_receive_address(cx, iid):
+    """E2 PROVENANCE: a server Receive event names the connection that delivered the packet.  The sink stores the address
+    it is given unchanged, pushes Receive(that address, payload), and every sink is created with the address of the very
+    client whose half-connection is asked to deliver (`client.address` of the borrowed client / the handler's address
+    argument) - not an address looked up by position or rewritten on the way."""
+    R = cx.R
+    with cx.instance(iid, "E2 PROVENANCE", "server Receive events carry the delivering connection's own address, unchanged", floor=6) as inst:
+        nb = R.body("server::EventPacketSink::<'a>::new")
+        e = show(nb.local_expr(0))
+        inst.site(nb, None, "sink = " + e[:160])
+        if not re.fullmatch(r"(server::)?EventPacketSink\{arg1, ?arg2\}", e):
+            inst.violation(nb.path, "sink address", "EventPacketSink::new builds `%s`; expected the address argument stored unchanged" % e[:200])
+        sb = [p for p in R.fns if p.startswith("<server::EventPacketSink") and p.endswith("::send")]
+        for pth in sb:
+            b = R.body(pth)
+            for l, t in b.calls("Vec::push"):
+                ce = show(b.call_expr(t))
+                inst.site(b, l, "push " + ce[:160])
+                if not re.search(r"Event::Receive\{arg1\.address, ?arg2\}", ce):
+                    inst.violation(b.path, "Receive address", "the sink pushes `%s`; expected Event::Receive(self.address, packet)" % ce[:200])
+        for b in [R.body(p) for p in R.fns if p.startswith("server::Server::")]:
+            for l, t in list(b.calls("EventPacketSink::<'a>::new")) + list(b.calls("EventPacketSink::new")):
+                ce = b.call_expr(t)
+                a = show(ce[2][0])
+                inst.site(b, l, "sink address = " + a[:200])
+                m = re.fullmatch(r"(var\d+)\.address", a)
+                rcv = [show(b.call_expr(t2)) for l2, t2 in b.calls("HalfConnection::receive")]
+                if re.fullmatch(r"arg\d+", a):
+                    continue
+                if not m or not any(r.startswith("HalfConnection::receive(%s.state@" % m.group(1)) for r in rcv):
+                    inst.violation(b.path, "sink address", "a Receive sink is created with address `%s`; expected the handler's address argument or `.address` of the client whose half-connection delivers" % a[:160], at=b.span_at(l))
 
 
 SELFTEST = [
